@@ -20,6 +20,8 @@
 #include "Algorithms.h"
 #include "StringLiterals.h"
 
+#include <utility>
+
 #include <QDomElement>
 
 using namespace QXmpp;
@@ -103,6 +105,10 @@ public:
 
     // flag to store that the roster has been populated
     bool isRosterReceived;
+
+    // whether a session is established (between connected() and the disconnected() that ends it);
+    // disconnected() is also emitted for connection attempts that never reached a session
+    bool inSession = false;
 };
 
 QXmppRosterManagerPrivate::QXmppRosterManagerPrivate()
@@ -164,6 +170,8 @@ bool QXmppRosterManager::acceptSubscription(const QString &bareJid, const QStrin
 ///
 void QXmppRosterManager::_q_connected()
 {
+    d->inSession = true;
+
     // clear cache if stream has not been resumed
     if (client()->streamManagementState() != QXmppClient::ResumedStream) {
         d->clear();
@@ -189,6 +197,14 @@ void QXmppRosterManager::_q_connected()
 
 void QXmppRosterManager::_q_disconnected()
 {
+    // A (re)connection attempt that fails after the stream has been restarted also ends in
+    // disconnected(). At that point the stream management state has already been reset although the
+    // previous session may still be resumed later, so only the end of an established session may
+    // clear the cache.
+    if (!std::exchange(d->inSession, false)) {
+        return;
+    }
+
     // clear cache if stream cannot be resumed
     if (client()->streamManagementState() == QXmppClient::NoStreamManagement) {
         d->clear();
